@@ -2,6 +2,7 @@ use std::fmt::Display;
 use std::str::FromStr;
 
 use bech32::Hrp;
+use bech32::primitives::decode::CheckedHrpstring;
 use enum_dispatch::enum_dispatch;
 use serde::{Deserialize, Serialize};
 #[cfg(all(feature = "wasm-bindgen", target_arch = "wasm32"))]
@@ -306,9 +307,13 @@ fn address_to_string(addr: &impl AddressTrait) -> String {
 }
 
 fn string_to_kind_and_id(s: &str) -> Result<(AddressKind, Id)> {
-    let (hrp, data) = bech32::decode(s).map_err(|_| Error::InvalidAddress(s.to_owned()))?;
+    // Addresses are encoded with the bech32 checksum only, `bech32::decode` would
+    // also accept the bech32m one.
+    let parsed = CheckedHrpstring::new::<bech32::Bech32>(s)
+        .map_err(|_| Error::InvalidAddress(s.to_owned()))?;
+    let data: Vec<u8> = parsed.byte_iter().collect();
 
-    let kind = hrp.as_str().parse()?;
+    let kind = parsed.hrp().as_str().parse()?;
     let bytes = data[..]
         .try_into()
         .map_err(|_| Error::InvalidAddressSize(data.len()))?;
